@@ -357,7 +357,15 @@ def state_sets(ctx, fid):
     if not b:
         return out
     for fb in ctx.w.family(fid):
-        for sbb, m, els, adt, pl in variant_edges(fb, lambda p: place_last_field(p) == STATE):
+        def _is_state(p, fb=fb):
+            if place_last_field(p) == STATE:
+                return True
+            # `may_transmit(t.state)` inlined: the match is on a copy of the field
+            if not p.get("p"):
+                og = origin(fb, {"c": p})
+                return og["k"] == "place" and place_last_field(og["p"]) == STATE
+            return False
+        for sbb, m, els, adt, pl in variant_edges(fb, _is_state):
             tgt_else = els[1]
             vs = frozenset(v for v, e in m.items() if e[1] != tgt_else)
             out.append((fb, sbb, vs))
